@@ -324,6 +324,15 @@ impl Sub for Exhaust {
 
         let _g = case.arm.force();
         let mut buffer = StripedScores::<f32, U32>::empty();
+        if case.own_buffer && case.consumed % 2 == 1 {
+            // the caller's buffer was used before: taller than anything the scanner needs, full of +inf
+            buffer.resize(s.rows + 7, (s.rows + 7) * 32);
+            for i in 0..s.rows + 7 {
+                for j in 0..32 {
+                    buffer.matrix_mut()[i][j] = f32::INFINITY;
+                }
+            }
+        }
         let mut scanner = Scanner::new(&s.pssm, &s.striped);
         if let Some(t) = s.thr {
             scanner.threshold(t);
@@ -420,12 +429,25 @@ pub struct Best;
 
 /// Run `k` next() calls then max() under one block size; returns (consumed positions, best).
 fn run_max(case: &Case, s: &Setup, block: &Block, k: usize, reconfigure: bool) -> (Vec<usize>, Option<(usize, f32)>) {
+    // a caller-provided score buffer that was used before (taller than anything the scanner needs)
+    let mut buffer = StripedScores::<f32, U32>::empty();
+    if case.own_buffer {
+        buffer.resize(s.rows + 7, (s.rows + 7) * 32);
+        for i in 0..s.rows + 7 {
+            for j in 0..32 {
+                buffer.matrix_mut()[i][j] = f32::INFINITY;
+            }
+        }
+    }
     let mut scanner = Scanner::new(&s.pssm, &s.striped);
     if let Some(t) = s.thr {
         scanner.threshold(t);
     }
     if let Some(b) = block.resolve(s.rows) {
         scanner.block_size(b);
+    }
+    if case.own_buffer {
+        scanner.scores(&mut buffer);
     }
     let mut consumed = Vec::new();
     for _ in 0..k.min(s.r32.len() + 2) {
